@@ -141,6 +141,9 @@ def run(tier):
         dl_ok, dl_gen, dl_dist, dl_out = vlib.run_design_level("MC_Containers.tla", "MC_Containers.cfg", scratch)
         if not dl_ok:
             V.machinery_error("design-level check of the specification failed (Containers.tla: FIFO order / occupancy): " + dl_out[-500:])
+        lv_ok, lv_gen, lv_dist, lv_out = vlib.run_design_level("MC_ContainersLive.tla", "MC_ContainersLive.cfg", scratch)
+        if not lv_ok:
+            V.machinery_error("design-level liveness check of the specification failed (Containers.tla: delivery / drain under a fair consumer): " + lv_out[-500:])
         mods = []
         for i, c in enumerate(cfgs):
             c["name"] = f"E14_{i:03d}"
@@ -194,7 +197,8 @@ def run(tier):
             V.violation(f"{err}:{fam[did]}|{did}", {"clause": err, "config": fam[did]})
     trunc = [k for k, v in stats.items() if v[0] >= budget]
     cov = {"states": dist, "transitions": gen, "traces_validated_against_impl": len(designs), "configurations": len(cfgs),
-           "evaluations": gen, "design_level": {"what": "Containers.tla: FIFO order / occupancy", "states": dl_dist, "transitions": dl_gen}, "distinct_nontrivial": sum(1 for v in stats.values() if v[1] >= 2),
+           "evaluations": gen, "design_level": {"what": "Containers.tla: FIFO order / occupancy", "states": dl_dist, "transitions": dl_gen},
+           "design_level_liveness": {"what": "Containers.tla under a weakly fair consumer: every pushed element is eventually popped in order; a full Fifo drains", "states": lv_dist}, "distinct_nontrivial": sum(1 for v in stats.values() if v[1] >= 2),
            "samples": [d["family"] for d in designs[:: max(1, len(designs) // 4)][:4]],
            "truncated_configurations": [fam[k] for k in trunc], "budget_transitions": budget, "exhaustive": not trunc,
            "rule": "wrapper entity per configuration (capacity N incl. powers of two and not, element width, one/two contexts, delay, "
